@@ -36,6 +36,16 @@ fn cases_presence(rng: &mut Rng, sink: &mut dyn FnMut(J) -> bool) {
     ];
     // wide objects: 1..40 hidden members / elements in one container, at several positions
     let mut special = special;
+    // top-level members named like registered / commonly special-cased claims, holding OBJECT values
+    // with nested objects: the strategy applies to them and each object carries a decoy
+    let named = json!({
+        "iss": "i", "exp": FAR_EXP,
+        "status": {"status_list": {"idx": 1, "uri": "u"}}, "cnf": {"jwk": {"kty": "oct", "deep": {}}}, "vct": {"id": {"v": 1}}, "sub": {"s": {"t": 1}}, "aud": {"a": [{"b": 1}]},
+        "nbf": {"n": {}}, "jti": {"j": {"k": 1}}, "typ": {"x": {}}, "nonce": {"k": {}}, "amr": [{"m": {"n": 1}}], "sd_hash": {"h": {}}, "x5c": {"c": {}}, "kid": {"k": {}}
+    });
+    for s in [Strategy::NoSD, Strategy::TopLevel, Strategy::AllLevels, Strategy::Custom(vec!["$.vct.id".into()]), Strategy::Custom(vec!["$.status".into(), "$.cnf.jwk".into()])] {
+        special.push((named.clone(), s));
+    }
     // many objects in one credential (records in arrays, nested chains)
     for n_obj in [17usize, 20, 33, 40, 81, 150] {
         let (records, chain) = many_objects(n_obj);
@@ -62,6 +72,9 @@ fn cases_presence(rng: &mut Rng, sink: &mut dyn FnMut(J) -> bool) {
             n += 1;
             let mut cfg = Cfg::simple(claims.clone(), s.clone()).variant(n);
             cfg.decoys = decoys;
+            if claims.get("cnf").is_some() {
+                cfg.holder = None; // cnf is user data here
+            }
             let mut c = cfg.to_json();
             c["kind"] = json!("presence");
             if !sink(c) {
@@ -206,9 +219,19 @@ fn many_objects(n: usize) -> (J, J) {
     (records, chain)
 }
 
+thread_local! {
+    static SKIP_ROOT_CNF: std::cell::Cell<bool> = std::cell::Cell::new(true);
+}
+
 /// Walk every object of an issued structure (payload and disclosed values); for each return
 /// (where, _sd list as strings).
 fn object_sd_lists(payload: &Map<String, J>, idx: &DiscIndex) -> Vec<(String, bool, Vec<String>, Vec<String>)> {
+    object_sd_lists_opt(payload, idx, true)
+}
+
+/// `cnf_is_holder_key`: the root `cnf` was added by the issuer (holder key) and is not user data.
+fn object_sd_lists_opt(payload: &Map<String, J>, idx: &DiscIndex, cnf_is_holder_key: bool) -> Vec<(String, bool, Vec<String>, Vec<String>)> {
+    SKIP_ROOT_CNF.with(|c| c.set(cnf_is_holder_key));
     // (location, inside_disclosure, sd list, plain member names)
     fn obj(o: &Map<String, J>, loc: &str, inside: bool, idx: &DiscIndex, out: &mut Vec<(String, bool, Vec<String>, Vec<String>)>) {
         let sd: Vec<String> = o.get("_sd").and_then(|s| s.as_array()).map(|a| a.iter().filter_map(|d| d.as_str().map(String::from)).collect()).unwrap_or_default();
@@ -217,7 +240,7 @@ fn object_sd_lists(payload: &Map<String, J>, idx: &DiscIndex) -> Vec<(String, bo
             if k == "_sd" {
                 continue;
             }
-            if loc == "$" && (k == "cnf" || k == "iss" || k == "iat" || k == "exp" || k == "_sd_alg") {
+            if loc == "$" && ((k == "cnf" && SKIP_ROOT_CNF.with(|c| c.get())) || k == "iss" || k == "iat" || k == "exp" || k == "_sd_alg") {
                 continue;
             }
             val(v, &format!("{loc}.{k}"), inside, idx, out);
@@ -301,7 +324,7 @@ pub fn check(case: &J) -> Verdict {
             };
             let Some(payload) = parts.payload() else { return Verdict::Trivial };
             let idx = DiscIndex::new(&parts.disclosures);
-            let lists = object_sd_lists(&payload, &idx);
+            let lists = object_sd_lists_opt(&payload, &idx, cfg.holder.is_some());
             let mut all_unmatched: Vec<String> = Vec::new();
             for (loc, _, sd, _) in &lists {
                 let unmatched: Vec<&String> = sd.iter().filter(|d| !idx.by_digest.contains_key(*d)).collect();
